@@ -831,4 +831,48 @@ theorem mir_checker_rejects_match_on_the_variable :
     0 ∈ (ValueMir.node (ValueMir.flatten ValueMir.wOnVariable) 5).binds ∧
     0 ∈ (ValueMir.node (ValueMir.flatten ValueMir.wOnVariable) 3).affects := by decide
 
+/-- **`call_arguments_are_consumed_mir`** — a parameter is a copy (statement: "passing … yields an
+    independent copy, so a later write through one name is never visible through another"), as a
+    verified check of the REAL lowerer's MIR (every item of every generated script, hook dump,
+    `c02 mirmatch`): if `argumentsAreConsumed` accepts an item then, on EVERY path of its
+    control-flow graph — every order of branches, every iteration of a loop, so also a call inside a
+    `for` body or a guard — after a node hands a variable `v` of a record / enum / owned type to a
+    call, `v` is assigned again as a whole before ANY node reads it or a part of it, reads its
+    discriminant, drops, moves, passes or returns it. So whatever the callee does to its parameter
+    (it owns and may write it in place) can be observed through no name of the caller: what was
+    handed over was a value of its own (`normalized_function_call`'s temporaries; the copy the
+    `for` loop hands to `get` on every iteration). About `flatten` of the dumped item (trusted: that
+    reading and the dump); which arguments count is read off the item's own type table (`dType`). -/
+theorem call_arguments_are_consumed_mir (it : ValueMir.Item)
+    (h : ValueMir.argumentsAreConsumed it = true) (v a : Nat) (mid : List Nat) (r : Nat)
+    (hp : ValueMir.IsPath (ValueMir.flatten it) (a :: (mid ++ [r])))
+    (ha : v ∈ (ValueMir.node (ValueMir.flatten it) a).hands)
+    (hr : v ∈ (ValueMir.node (ValueMir.flatten it) r).uses) :
+    ∃ m ∈ mid, v ∈ (ValueMir.node (ValueMir.flatten it) m).defs :=
+  ValueMir.argsOk_sound h v a mid r hp ha hr
+
+/-- non-vacuity: a call in a loop, handed a fresh copy of `x` on every iteration — accepted; the path
+    once round the loop from the call (node 1) back to it passes the assignment of the copy
+    (node 0), and `x` is read after the loop. -/
+example : ValueMir.argumentsAreConsumed ValueMir.wArgCopy = true ∧
+    ValueMir.IsPath (ValueMir.flatten ValueMir.wArgCopy) [1, 2, 3, 0, 1] ∧
+    1 ∈ (ValueMir.node (ValueMir.flatten ValueMir.wArgCopy) 1).hands ∧
+    1 ∈ (ValueMir.node (ValueMir.flatten ValueMir.wArgCopy) 1).uses ∧
+    1 ∈ (ValueMir.node (ValueMir.flatten ValueMir.wArgCopy) 0).defs ∧
+    0 ∈ (ValueMir.node (ValueMir.flatten ValueMir.wArgCopy) 4).uses := by decide
+
+example : ∃ m ∈ [2, 3, 0], 1 ∈ (ValueMir.node (ValueMir.flatten ValueMir.wArgCopy) m).defs :=
+  call_arguments_are_consumed_mir ValueMir.wArgCopy (by decide) 1 1 [2, 3, 0] 1
+    (by decide) (by decide) (by decide)
+
+/-- **`mir_checker_rejects_argument_passed_itself`** — the second checker is not trivially `true`:
+    when the lowerer hands the user's variable itself to the callee (`f(x)` without the temporary)
+    and the next statement reads `x.0`, the item is rejected, and on it the conclusion of the
+    soundness theorem indeed fails (node 1 reads `x` right after node 0 handed it over). -/
+theorem mir_checker_rejects_argument_passed_itself :
+    ValueMir.argumentsAreConsumed ValueMir.wArgItself = false ∧
+    ValueMir.IsPath (ValueMir.flatten ValueMir.wArgItself) [0, 1] ∧
+    0 ∈ (ValueMir.node (ValueMir.flatten ValueMir.wArgItself) 0).hands ∧
+    0 ∈ (ValueMir.node (ValueMir.flatten ValueMir.wArgItself) 1).uses := by decide
+
 end RotoV.C02
